@@ -185,7 +185,7 @@ fn inline_cycle(em: &Emitted, table: &HashMap<String, Extern>) -> Option<String>
                 if p.path.leading_colon.is_some() {
                     return match table.get(&path_key(&p.path)) {
                         // heap indirection: contents are not stored inline
-                        Some(Extern::Vec) | Some(Extern::Box) | Some(Extern::BTreeMap) | Some(Extern::SeqWrapper) | Some(Extern::Cow) => None,
+                        Some(Extern::Vec) | Some(Extern::Box) | Some(Extern::BTreeMap) | Some(Extern::SeqWrapper) | Some(Extern::Cow) | Some(Extern::U8Keyed) => None,
                         // PhantomData<T> stores nothing
                         Some(Extern::Phantom) => None,
                         // everything else stores its arguments inline (Option, Result, Range, Compact, substitutes)
